@@ -39,21 +39,18 @@ pub fn is_valid_identifier(s: &str) -> bool {
 pub fn format_record_key(key: &str) -> String {
     if is_valid_identifier(key) {
         key.to_string()
+    } else if !(key.contains('"') && key.contains('\'')) {
+        string_to_source(key)
     } else {
-        format!("\"{}\"", key.replace('\\', "\\\\").replace('"', "\\\""))
+        // No single literal can hold both kinds of quote: use a computed key
+        format!("[{}]", string_to_source(key))
     }
 }
 
 pub fn expr_to_source(spanned_expr: &SpannedExpr) -> String {
     match &spanned_expr.node {
-        Expr::Number(n) => {
-            if n.fract() == 0.0 && n.abs() < 1e15 {
-                format!("{:.0}", n)
-            } else {
-                n.to_string()
-            }
-        }
-        Expr::String(s) => format!("\"{}\"", s.replace("\\", "\\\\").replace("\"", "\\\"")),
+        Expr::Number(n) => number_to_source(*n),
+        Expr::String(s) => string_to_source(s),
         Expr::Bool(b) => b.to_string(),
         Expr::Null => "null".to_string(),
         Expr::Identifier(name) => name.clone(),
@@ -72,7 +69,11 @@ pub fn expr_to_source(spanned_expr: &SpannedExpr) -> String {
         }
         Expr::Lambda { args, body } => {
             let args_str: Vec<String> = args.iter().map(lambda_arg_to_source).collect();
-            format!("({}) => {}", args_str.join(", "), expr_to_source(body))
+            format!(
+                "({}) => {}",
+                args_str.join(", "),
+                parenthesize_if(lambda_body_needs_parens(body), expr_to_source(body))
+            )
         }
         Expr::Conditional {
             condition,
@@ -115,17 +116,31 @@ pub fn expr_to_source(spanned_expr: &SpannedExpr) -> String {
         Expr::Output { expr } => format!("output {}", expr_to_source(expr)),
         Expr::Call { func, args } => {
             let args_str: Vec<String> = args.iter().map(expr_to_source).collect();
-            let func_str = match &func.node {
-                // Wrap lambdas in parentheses when used in call position
-                Expr::Lambda { .. } => format!("({})", expr_to_source(func)),
-                _ => expr_to_source(func),
-            };
+            // Wrap lambdas (and anything else that binds looser than a call) in parentheses
+            let func_str = parenthesize_if(
+                needs_parens(func, ChildPosition::Postfix),
+                expr_to_source(func),
+            );
             format!("{}({})", func_str, args_str.join(", "))
         }
         Expr::Access { expr, index } => {
-            format!("{}[{}]", expr_to_source(expr), expr_to_source(index))
+            format!(
+                "{}[{}]",
+                parenthesize_if(
+                    needs_parens(expr, ChildPosition::Postfix),
+                    expr_to_source(expr)
+                ),
+                expr_to_source(index)
+            )
         }
-        Expr::DotAccess { expr, field } => format!("{}.{}", expr_to_source(expr), field),
+        Expr::DotAccess { expr, field } => format!(
+            "{}.{}",
+            parenthesize_if(
+                needs_parens(expr, ChildPosition::Postfix),
+                expr_to_source(expr)
+            ),
+            field
+        ),
         Expr::BinaryOp { op, left, right } => {
             let op_str = binary_op_to_source(op);
             let left_str = if needs_parens_in_binop(op, left, true) {
@@ -142,11 +157,25 @@ pub fn expr_to_source(spanned_expr: &SpannedExpr) -> String {
         }
         Expr::UnaryOp { op, expr } => {
             let op_str = unary_op_to_source(op);
-            format!("{}{}", op_str, expr_to_source(expr))
+            format!(
+                "{}{}",
+                op_str,
+                parenthesize_if(
+                    needs_parens(expr, ChildPosition::Prefix),
+                    expr_to_source(expr)
+                )
+            )
         }
         Expr::PostfixOp { op, expr } => {
             let op_str = postfix_op_to_source(op);
-            format!("{}{}", expr_to_source(expr), op_str)
+            format!(
+                "{}{}",
+                parenthesize_if(
+                    needs_parens(expr, ChildPosition::Postfix),
+                    expr_to_source(expr)
+                ),
+                op_str
+            )
         }
         Expr::Spread(expr) => format!("...{}", expr_to_source(expr)),
     }
@@ -210,43 +239,138 @@ fn binary_op_to_source(op: &BinaryOp) -> &'static str {
     }
 }
 
+/// Where a child expression sits inside its parent expression.
+#[derive(Debug, Clone, Copy)]
+pub enum ChildPosition<'a> {
+    /// Left operand of a binary operator
+    BinaryLeft(&'a BinaryOp),
+    /// Right operand of a binary operator
+    BinaryRight(&'a BinaryOp),
+    /// Operand of a prefix operator (`-x`, `!x`)
+    Prefix,
+    /// Operand of a postfix operator, or the callee / indexed / accessed expression
+    /// (`x!`, `x(...)`, `x[...]`, `x.field`)
+    Postfix,
+}
+
+/// Lambdas, conditionals and assignments extend as far to the right as the grammar lets
+/// them, so anything that ends with one of them swallows whatever is printed after it.
+fn ends_open(expr: &SpannedExpr) -> bool {
+    match &expr.node {
+        Expr::Lambda { .. }
+        | Expr::Conditional { .. }
+        | Expr::Assignment { .. }
+        | Expr::Output { .. } => true,
+        Expr::BinaryOp { right, .. } => ends_open(right),
+        Expr::UnaryOp { expr, .. } => ends_open(expr),
+        _ => false,
+    }
+}
+
+/// Check if a child expression needs parentheses in the given position, so that the
+/// printed text parses back to the same tree.
+pub fn needs_parens(child_expr: &SpannedExpr, position: ChildPosition) -> bool {
+    // A child followed by more source text must not end with an open-ended form
+    if matches!(
+        position,
+        ChildPosition::BinaryLeft(_) | ChildPosition::Postfix
+    ) && ends_open(child_expr)
+    {
+        return true;
+    }
+
+    match &child_expr.node {
+        Expr::BinaryOp { op: child_op, .. } => {
+            let (child_prec, _child_assoc) = operator_info(child_op);
+            match position {
+                ChildPosition::BinaryLeft(parent_op) => {
+                    let (parent_prec, parent_assoc) = operator_info(parent_op);
+                    // Lower precedence always needs parentheses; at the same precedence
+                    // the parser groups towards the left for left-associative operators
+                    // and towards the right for right-associative ones
+                    child_prec < parent_prec
+                        || (child_prec == parent_prec && matches!(parent_assoc, Assoc::Right))
+                }
+                ChildPosition::BinaryRight(parent_op) => {
+                    let (parent_prec, parent_assoc) = operator_info(parent_op);
+                    child_prec < parent_prec
+                        || (child_prec == parent_prec && matches!(parent_assoc, Assoc::Left))
+                }
+                // Prefix and postfix operators bind tighter than every binary operator
+                ChildPosition::Prefix | ChildPosition::Postfix => true,
+            }
+        }
+        // Postfix operators bind tighter than prefix operators
+        Expr::UnaryOp { .. } => matches!(position, ChildPosition::Postfix),
+        _ => false,
+    }
+}
+
 /// Check if a child expression needs parentheses when used in a binary operation
 pub fn needs_parens_in_binop(
     parent_op: &BinaryOp,
     child_expr: &SpannedExpr,
     is_left: bool,
 ) -> bool {
-    match &child_expr.node {
-        Expr::BinaryOp { op: child_op, .. } => {
-            let (parent_prec, parent_assoc) = operator_info(parent_op);
-            let (child_prec, _child_assoc) = operator_info(child_op);
+    if is_left {
+        needs_parens(child_expr, ChildPosition::BinaryLeft(parent_op))
+    } else {
+        needs_parens(child_expr, ChildPosition::BinaryRight(parent_op))
+    }
+}
 
-            // Need parentheses if child has lower precedence
-            if child_prec < parent_prec {
-                return true;
-            }
-
-            // For same precedence, need parentheses on right side for:
-            // - Right-associative operators (e.g., power)
-            // - Non-associative operators (subtraction, division)
-            if child_prec == parent_prec && !is_left {
-                match parent_assoc {
-                    Assoc::Right => return true,
-                    Assoc::Left => {
-                        // For left-associative operators, right side needs parens for non-associative ones
-                        if matches!(
-                            parent_op,
-                            BinaryOp::Subtract | BinaryOp::Divide | BinaryOp::Modulo
-                        ) {
-                            return true;
-                        }
-                    }
-                }
-            }
-
-            false
+/// Lambda bodies are parsed without `via` / `into` / `where` (so that chains stay flat),
+/// which means a body with one of those at its top level needs parentheses.
+pub fn lambda_body_needs_parens(body: &SpannedExpr) -> bool {
+    match &body.node {
+        Expr::BinaryOp { op, left, .. } => {
+            matches!(op, BinaryOp::Via | BinaryOp::Into | BinaryOp::Where)
+                || (operator_info(op).0 == operator_info(&BinaryOp::Via).0
+                    && lambda_body_needs_parens(left))
         }
         _ => false,
+    }
+}
+
+/// Wrap `source` in parentheses if `needed`
+fn parenthesize_if(needed: bool, source: String) -> String {
+    if needed {
+        format!("({})", source)
+    } else {
+        source
+    }
+}
+
+/// Source for a string literal. The grammar has no escape sequences: a literal runs up to
+/// the next occurrence of its opening quote, so pick a quote that does not occur in the
+/// string, and fall back to concatenating pieces when both kinds occur.
+pub fn string_to_source(s: &str) -> String {
+    if !s.contains('"') {
+        format!("\"{}\"", s)
+    } else if !s.contains('\'') {
+        format!("'{}'", s)
+    } else {
+        let pieces: Vec<String> = s
+            .split_inclusive('"')
+            .flat_map(|piece| match piece.strip_suffix('"') {
+                Some("") => vec!["'\"'".to_string()],
+                Some(rest) => vec![format!("\"{}\"", rest), "'\"'".to_string()],
+                None => vec![format!("\"{}\"", piece)],
+            })
+            .collect();
+        format!("({})", pieces.join(" + "))
+    }
+}
+
+/// Source for a number literal
+fn number_to_source(n: f64) -> String {
+    if n.is_infinite() && n > 0.0 {
+        // There is no literal for infinity, but an out-of-range literal denotes it
+        "1e999".to_string()
+    } else if n.fract() == 0.0 && n.abs() < 1e15 {
+        format!("{:.0}", n)
+    } else {
+        n.to_string()
     }
 }
 
@@ -280,14 +404,8 @@ pub fn expr_to_source_with_scope(
         }
         Expr::InputReference(field) => format!("#{}", field),
         // For all other expression types, recursively process with scope
-        Expr::Number(n) => {
-            if n.fract() == 0.0 && n.abs() < 1e15 {
-                format!("{:.0}", n)
-            } else {
-                n.to_string()
-            }
-        }
-        Expr::String(s) => format!("\"{}\"", s.replace("\\", "\\\\").replace("\"", "\\\"")),
+        Expr::Number(n) => number_to_source(*n),
+        Expr::String(s) => string_to_source(s),
         Expr::Bool(b) => b.to_string(),
         Expr::Null => "null".to_string(),
         Expr::BuiltIn(built_in) => built_in.name().to_string(),
@@ -316,7 +434,10 @@ pub fn expr_to_source_with_scope(
             format!(
                 "({}) => {}",
                 args_str.join(", "),
-                expr_to_source_with_scope(body, &filtered_scope)
+                parenthesize_if(
+                    lambda_body_needs_parens(body),
+                    expr_to_source_with_scope(body, &filtered_scope)
+                )
             )
         }
         Expr::Conditional {
@@ -380,11 +501,25 @@ pub fn expr_to_source_with_scope(
                 UnaryOp::Not => "!",
                 UnaryOp::Invert => "~",
             };
-            format!("{}{}", op_str, expr_to_source_with_scope(expr, scope))
+            format!(
+                "{}{}",
+                op_str,
+                parenthesize_if(
+                    needs_parens(expr, ChildPosition::Prefix),
+                    expr_to_source_with_scope(expr, scope)
+                )
+            )
         }
         Expr::PostfixOp { op, expr } => {
             let op_str = postfix_op_to_source(op);
-            format!("{}{}", expr_to_source_with_scope(expr, scope), op_str)
+            format!(
+                "{}{}",
+                parenthesize_if(
+                    needs_parens(expr, ChildPosition::Postfix),
+                    expr_to_source_with_scope(expr, scope)
+                ),
+                op_str
+            )
         }
         Expr::Spread(expr) => format!("...{}", expr_to_source_with_scope(expr, scope)),
         Expr::Assignment { ident, value } => {
@@ -398,24 +533,32 @@ pub fn expr_to_source_with_scope(
                 .iter()
                 .map(|e| expr_to_source_with_scope(e, scope))
                 .collect();
-            let func_str = match &func.node {
-                // Wrap lambdas in parentheses when used in call position
-                Expr::Lambda { .. } => {
-                    format!("({})", expr_to_source_with_scope(func, scope))
-                }
-                _ => expr_to_source_with_scope(func, scope),
-            };
+            // Wrap lambdas (and anything else that binds looser than a call) in parentheses
+            let func_str = parenthesize_if(
+                needs_parens(func, ChildPosition::Postfix),
+                expr_to_source_with_scope(func, scope),
+            );
             format!("{}({})", func_str, args_str.join(", "))
         }
         Expr::Access { expr, index } => {
             format!(
                 "{}[{}]",
-                expr_to_source_with_scope(expr, scope),
+                parenthesize_if(
+                    needs_parens(expr, ChildPosition::Postfix),
+                    expr_to_source_with_scope(expr, scope)
+                ),
                 expr_to_source_with_scope(index, scope)
             )
         }
         Expr::DotAccess { expr, field } => {
-            format!("{}.{}", expr_to_source_with_scope(expr, scope), field)
+            format!(
+                "{}.{}",
+                parenthesize_if(
+                    needs_parens(expr, ChildPosition::Postfix),
+                    expr_to_source_with_scope(expr, scope)
+                ),
+                field
+            )
         }
     }
 }
@@ -456,17 +599,20 @@ fn record_entry_to_source_with_scope(
 fn serializable_value_to_source(value: &SerializableValue) -> String {
     match value {
         SerializableValue::Number(n) => {
-            if n.fract() == 0.0 && n.abs() < 1e15 {
-                format!("{:.0}", n)
+            if n.is_nan() {
+                // There is no NaN literal; this expression evaluates to it
+                "(0/0)".to_string()
+            } else if n.is_sign_negative() {
+                // An inlined value can end up under any operator: `x!` with x = -5 must
+                // not become `-5!`
+                format!("(-{})", number_to_source(-n))
             } else {
-                n.to_string()
+                number_to_source(*n)
             }
         }
         SerializableValue::Bool(b) => b.to_string(),
         SerializableValue::Null => "null".to_string(),
-        SerializableValue::String(s) => {
-            format!("\"{}\"", s.replace("\\", "\\\\").replace("\"", "\\\""))
-        }
+        SerializableValue::String(s) => string_to_source(s),
         SerializableValue::List(items) => {
             let items_str: Vec<String> = items.iter().map(serializable_value_to_source).collect();
             format!("[{}]", items_str.join(", "))
